@@ -1,7 +1,7 @@
 (* Props/C09.v — C09: no peer behaviour wedges the endpoint; link loss ends in a clean, reusable state.
    Theorems only.  Model: Model/Endpoint.v (receive path + session handling). *)
 From SG Require Import Base.Prelude Base.Kinds Spec.E37Session Model.StateMachine Model.Secs2 Model.Frames Model.HsmsRx Model.HsmsSession Model.Endpoint
-  Gen.Machines Proofs.RxProofs Proofs.SessionProofs Proofs.EndpointProofs Gen.SendQueue Model.SendQueue Proofs.SendQueueProofs Base.PyRt Gen.RxLoop Proofs.RxLoopProofs.
+  Gen.Machines Proofs.RxProofs Proofs.SessionProofs Proofs.EndpointProofs Gen.SendQueue Model.SendQueue Proofs.SendQueueProofs Base.PyRt Gen.RxLoop Proofs.RxLoopProofs Gen.Lifecycle Proofs.LifecycleProofs.
 Open Scope Z_scope.
 
 (* whatever has arrived - any bytes, cut anywhere - closing the connection in any connected session state leaves the
@@ -61,3 +61,25 @@ Example C09_receive_loop_sample :
   = [Delivered {| h_system := 7; h_session := 0; h_stream := 1; h_function := 1; h_w := true; h_ptype := 0; h_stype := 0 |} []; Dropped;
      Delivered {| h_system := 7; h_session := 0; h_stream := 1; h_function := 1; h_w := true; h_ptype := 0; h_stype := 0 |} []]%Z.
 Proof. vm_compute. reflexivity. Qed.
+
+(* Coming up and going down, as the code has it.  HsmsProtocol._on_connected, _on_disconnecting and _on_disconnected are read statement by
+   statement on every run (harness/gen_lifecycle.py -> Gen/Lifecycle.v; _cancel_open_transactions and _cancel_send_queue are checked to release
+   every waiter and resolve every queued block).  Carried out on the model's state, the regenerated sequences ARE the model's connect and close
+   steps - the theorems above about closing in any state, with anything in the buffer, are about this clean-up - and the orders the repairs
+   established are orders of these sequences: the session leaves NOT CONNECTED before the threads run (D8); when "disconnected" is announced the
+   threads are stopped, the send queue is resolved, nobody waits for a reply any more and the receive buffer is empty (D24, D44, D62). *)
+Theorem C09_lifecycle_code_is_model :
+  (forall e, ep_step e LConnect = run_life e hsms_on_connected_ops) /\
+  (forall e, is_connected (e_hs e) = true -> ep_step e LClose = run_life e (hsms_on_disconnecting_ops ++ hsms_on_disconnected_ops)).
+Proof. exact (conj connect_is_the_code close_is_the_code). Qed.
+Print Assumptions C09_lifecycle_code_is_model.
+
+Theorem C09_lifecycle_orders :
+  before (is_transition "connect") (fun o => match o with LStartThreads => true | _ => false end) hsms_on_connected_ops = true /\
+  before (is_transition "disconnect") (is_fire "disconnected") hsms_on_disconnected_ops = true /\
+  before (fun o => match o with LStopThreads => true | _ => false end) (is_fire "disconnected") hsms_on_disconnected_ops = true /\
+  before (fun o => match o with LCancelSendQueue => true | _ => false end) (is_fire "disconnected") hsms_on_disconnected_ops = true /\
+  before (fun o => match o with LCancelOpenTransactions => true | _ => false end) (is_fire "disconnected") hsms_on_disconnected_ops = true /\
+  before (fun o => match o with LClearReceiveBuffer => true | _ => false end) (is_fire "disconnected") hsms_on_disconnected_ops = true.
+Proof. exact lifecycle_orders. Qed.
+Print Assumptions C09_lifecycle_orders.
